@@ -498,6 +498,18 @@ class OsProxy:
             return bool(orc(p))
         return self.k.exists(p)
 
+    def walk(self, top):
+        """os.walk over the simulated tree (top-down; files are the model's file entries, directories everything implied by paths)"""
+        k = self.k
+        pre = top.rstrip("/") + "/"
+        files = sorted({n[len(pre):] for n in k.files if isinstance(n, str) and n.startswith(pre) and "/" not in n[len(pre):]})
+        dirs = sorted({n[len(pre):].split("/", 1)[0] for n in list(k.files) + list(k.dirs) + list(k.links) if isinstance(n, str) and n.startswith(pre) and "/" in n[len(pre):]}
+                      | {n[len(pre):] for n in k.dirs if isinstance(n, str) and n.startswith(pre) and "/" not in n[len(pre):] and n[len(pre):]})
+        k.access("listdir", top)
+        yield top, dirs, files
+        for d in dirs:
+            yield from self.walk(pre + d)
+
     def sysconf(self, name):
         if name in getattr(self.k, "sysconf_errors", ()):
             raise ValueError("unrecognized configuration name")
